@@ -272,6 +272,10 @@ func (c *regexpSimplifyChecker) walkCharClassItems(class syntax.Expr) {
 		if (e.Op == syntax.OpChar || e.Op == syntax.OpEscapeChar) && strings.HasSuffix(e.Value, "-") {
 			c.classHasDash = true
 		}
+		// A range that starts or ends with '-' (`---`, `+--`) is a literal dash, too.
+		if e.Op == syntax.OpCharRange && (e.Args[0].Value == "-" || e.Args[1].Value == "-") {
+			c.classHasDash = true
+		}
 	}
 	for _, e := range class.Args {
 		c.walk(e)
